@@ -3,7 +3,7 @@
      <id> ENC <m> <key> <sid> <seq> <closing> <payload> <padLen dec> <rnd>      -> <id> <msg> | none
      <id> ENCBUF <m> <key> <sid> <seq> <closing> <payload> <padLen dec> <rnd> <buflen dec> -> idem
      <id> DEC <m> <key> <msg>      -> <id> ok <sid> <seq> <closing> <payload> | err:<kind> | panic
-     <id> REENC <m> <key> <msg>    -> <id> <re-encoded msg> <padLen dec> ok <sid> <seq> <closing> <payload> | none
+     <id> REENC <m> <key> <msg>    -> <id> <re-encoded msg> <padLen dec>:<pad_len seq padLen = padLen 0|1> ok <sid> <seq> <closing> <payload> | none
      <id> PRIM salsa <key> <nonce8> <data>                 -> <id> <out>
      <id> PRIM chachapoly|gcm <key> <nonce12> <pt> <aad>   -> <id> <sealed>
      <id> PRIMOPEN chachapoly|gcm <key> <nonce12> <ct> <aad> -> <id> <pt> | fail
@@ -40,7 +40,10 @@ let () = iter_lines (fun line ->
     (match recover (meth m) k (bytes_of_hex msg) with
      | Some ((f, pad), rnd) ->
        (match encode (meth m) k f pad rnd with
-        | Some msg' -> Printf.printf "%s %s %d %s\n" id (hex_of_bytes msg') (int_of_n pad) (show_result (Ok f))
+        | Some msg' ->
+          (* thr: can the model's obfuscate (pad_len seq draw) have chosen this padding for this seq? *)
+          let thr = (pad_len f.f_seq pad = pad) in
+          Printf.printf "%s %s %d:%s %s\n" id (hex_of_bytes msg') (int_of_n pad) (b01 thr) (show_result (Ok f))
         | None -> Printf.printf "%s none\n" id)
      | None -> Printf.printf "%s none\n" id)
   | [id; "PRIM"; "salsa"; key; nonce; data] ->
